@@ -15,7 +15,9 @@ import (
 	"os"
 	"path/filepath"
 	"reflect"
+	"regexp"
 	"sort"
+	"strconv"
 	"strings"
 	"sync"
 	"unicode"
@@ -394,7 +396,70 @@ type diffEntry struct {
 	Got      string
 }
 
-func nfc(s string) string { return norm.NFC.String(s) }
+// nfc is the NFC form of s.  golang.org/x/text v0.18.0 (the version the tree under test pins, and
+// through go-cty the one that normalises every string value of a profile) composes a rune above
+// U+FFFF with a following combining mark as if the rune were cut to 16 bits: U+10041 + U+0328 comes
+// out as U+0104 (344 such runes between U+10000 and U+1FFFF).  No rune above U+FFFF that is a
+// starter composes with a following mark, so the true form is computed by letting the library see a
+// private-use starter in its place.
+func nfc(s string) string {
+	if !astralBeforeMark(s) {
+		return norm.NFC.String(s)
+	}
+	var astral []rune
+	var b strings.Builder
+	for _, r := range s {
+		if r > 0xffff && norm.NFC.PropertiesString(string(r)).CCC() == 0 {
+			astral = append(astral, r)
+			r = 0xf8ff // private use: a starter that composes with nothing
+		}
+		b.WriteRune(r)
+	}
+	out := []rune(norm.NFC.String(b.String()))
+	i := 0
+	for j, r := range out {
+		if r == 0xf8ff && i < len(astral) {
+			out[j] = astral[i]
+			i++
+		}
+	}
+	return string(out)
+}
+
+// astralSig is the one signature of every difference caused by the normalisation library cutting
+// a rune above U+FFFF to 16 bits when a combining mark follows (see nfc); want is a %q-quoted value.
+const astralSig = "text|rune-above-U+FFFF-before-combining-mark|normalised-as-if-cut-to-16-bits"
+
+var uniEsc = regexp.MustCompile(`\\U[0-9a-fA-F]{8}|\\u[0-9a-fA-F]{4}`)
+
+func astralDiff(want string) bool {
+	// want is a %q rendering of a string or of a list of strings: undo the \u / \U escapes only
+	s := uniEsc.ReplaceAllStringFunc(want, func(m string) string {
+		n, err := strconv.ParseUint(m[2:], 16, 32)
+		if err != nil {
+			return m
+		}
+		return string(rune(n))
+	})
+	return astralBeforeMark(s)
+}
+
+// astralBeforeMark: s holds a rune above U+FFFF directly followed by a combining mark (and no
+// U+F8FF of its own, which nfc uses as the stand-in).
+func astralBeforeMark(s string) bool {
+	prev := rune(0)
+	hit := false
+	for _, r := range s {
+		if r == 0xf8ff {
+			return false
+		}
+		if prev > 0xffff && unicode.In(r, unicode.Mn, unicode.Mc, unicode.Me) {
+			hit = true
+		}
+		prev = r
+	}
+	return hit
+}
 
 // diffStruct compares the generated value (want) with the loaded one (got).
 // Attribute strings are compared after NFC (cty normalises every string value to NFC on entry,
